@@ -142,6 +142,10 @@ def r2(repo, run):
             raise AnalysisError('GlobalsWrapper.__getattr__: finite-domain evaluator refused: %s' % e)
         want = 'from-globals' if in_g else (('config', 'n') if in_c else ('from-builtins' if in_b else None))
         rows += 1
+        kept = sorted(k for k in w.f if k not in ('gbls', 'ecfg', 'ctx', 'node', 'path'))
+        if kept:
+            # __getattr__ only runs when the attribute is not found on the instance: a resolved name stored there is never resolved again
+            bad.append('the resolved name is stored on the wrapper itself (%s): later lookups of it bypass the resolution order - a definition the code makes afterwards in its own globals is ignored' % kept)
         where = 'defined by %s' % (', '.join(x for x, f in (('own globals', in_g), ('config', in_c), ('builtins', in_b)) if f) or 'nothing')
         if want is None:
             if r.raised != 'NameError':
@@ -233,11 +237,19 @@ def shifted_ops_of_interpreter():
     return out, path
 
 
-def _decode_loop(fi):
+def _decode_loop(fi, repo=None):
+    """the top-level statement of the patcher that holds the instruction loop over co_code - the loop itself, or the call of
+    the private helper (reached only from the patcher) the loop has been moved to"""
     loops = [s for s in fi.node.body if isinstance(s, (ast.While, ast.For)) and 'co_code' in norm(s)]
-    if not loops:
-        raise AnalysisError('_patch_access_to_globals: instruction loop over co_code not found')
-    return loops[0]
+    if loops:
+        return loops[0]
+    if repo is not None:
+        holders = [g for g in _family(repo, fi) if g is not fi and any(isinstance(s, (ast.While, ast.For)) and 'co_code' in norm(s) and 'dis.opname' in norm(s) for s in ast.walk(g.node))]
+        for g in holders:
+            for st in fi.node.body:
+                if any(isinstance(c.func, ast.Name) and c.func.id == g.name for c in calls_in(st)):
+                    return st
+    raise AnalysisError('_patch_access_to_globals: instruction loop over co_code not found')
 
 
 def _patcher_paths(repo, upto):
@@ -273,7 +285,7 @@ def r5(repo, run):
     shifted, path = shifted_ops_of_interpreter()
     if 'LOAD_GLOBAL' not in shifted and tuple(sys.version_info[:2]) >= (3, 11):
         raise AnalysisError('dis.py of this interpreter: shifted-operand branches not recognised (%s)' % path)
-    loop = _decode_loop(repo.func('EvalNode._patch_access_to_globals'))
+    loop = _decode_loop(repo.func('EvalNode._patch_access_to_globals'), repo)
     fi, paths = _patcher_paths(repo, loop)
     run.table('C12.R5', len(shifted), 'opcodes with shifted name operand per %s: %s' % (os.path.basename(path), shifted))
     # the opcode / operand expressions of the first instruction
@@ -285,7 +297,7 @@ def r5(repo, run):
     if len(optexts) != 1:
         raise AnalysisError('_patch_access_to_globals: opcode lookup dis.opname[<op>] not recognised (%s)' % sorted(optexts)[:3])
     OP = 'dis.opname[%s]' % optexts.pop()
-    base = {}
+    base = dict(tr.module_consts(fi.module))
     for v in ((3, 8), (3, 9), (3, 10), (3, 11), (3, 12), (3, 13), (3, 14)):
         base['python_is_at_least(%d, %d)' % v] = tuple(sys.version_info[:2]) >= v
     W = 5
@@ -345,7 +357,7 @@ def r5(repo, run):
 
 
 def r6(repo, run):
-    loop = _decode_loop(repo.func('EvalNode._patch_access_to_globals'))
+    loop = _decode_loop(repo.func('EvalNode._patch_access_to_globals'), repo)
     fi, paths = _patcher_paths(repo, loop)
     rec_seen = False
     for p in paths:
